@@ -64,7 +64,7 @@ def run_tlc(scratch, module, cfg_text, tag, workers=None, timeout=1500, simulate
     if dfs:
         jopts.append("-Dtlc2.tool.queue.IStateQueue=StateDeque")
     cmd = ["java"] + jopts + ["-cp", JAR, "tlc2.TLC", "-workers", str(workers or NCPU), "-metadir", meta,
-                              "-config", cfg]
+                              "-noGenerateSpecTE", "-config", cfg]
     if simulate:
         cmd += ["-simulate", "num=%d" % simulate]
     if depth:
